@@ -307,8 +307,7 @@ class VariableElimination(Inference):
             # The engine works on an augmented copy for this call only.
             orig_model = self.model
             try:
-                self._virtual_evidence(virtual_evidence)
-                virt_evidence = {"__" + str(cpd.variables[0]): 0 for cpd in virtual_evidence}
+                virt_evidence = self._virtual_evidence(virtual_evidence)
                 return self.query(
                     variables=variables,
                     evidence={**evidence, **virt_evidence},
@@ -562,8 +561,7 @@ class VariableElimination(Inference):
             # The engine works on an augmented copy for this call only.
             orig_model = self.model
             try:
-                self._virtual_evidence(virtual_evidence)
-                virt_evidence = {"__" + str(cpd.variables[0]): 0 for cpd in virtual_evidence}
+                virt_evidence = self._virtual_evidence(virtual_evidence)
                 return self.map_query(
                     variables=variables,
                     evidence={**evidence, **virt_evidence},
@@ -1137,8 +1135,7 @@ class BeliefPropagation(Inference):
             # The engine works on an augmented copy for this call only.
             orig_model = self.model
             try:
-                self._virtual_evidence(virtual_evidence)
-                virt_evidence = {"__" + str(cpd.variables[0]): 0 for cpd in virtual_evidence}
+                virt_evidence = self._virtual_evidence(virtual_evidence)
                 return self.query(
                     variables=variables,
                     evidence={**evidence, **virt_evidence},
@@ -1243,8 +1240,7 @@ class BeliefPropagation(Inference):
             # The engine works on an augmented copy for this call only.
             orig_model = self.model
             try:
-                self._virtual_evidence(virtual_evidence)
-                virt_evidence = {"__" + str(cpd.variables[0]): 0 for cpd in virtual_evidence}
+                virt_evidence = self._virtual_evidence(virtual_evidence)
                 return self.map_query(
                     variables=variables,
                     evidence={**evidence, **virt_evidence},
